@@ -180,7 +180,8 @@ Inductive op :=
 | OModIns (name : string) (kd : mkind) (* sys.modules[name] = ... / import of a local module *)
 | OModDel (name : string)              (* sys.modules.pop(name, None) *)
 | OPathIns (d : string)                (* sys.path.insert(0, d) *)
-| OMutate (k : key) (c : N).           (* in-place edit of the object the attribute holds (sys.argv[1:] = [...]) *)
+| OMutate (k : key) (c : N)            (* in-place edit of the object the attribute holds (sys.argv[1:] = [...]) *)
+| OMetaIns (front : bool) (h : N).     (* sys.meta_path.insert(0, finder) / sys.meta_path.append(finder) *)
 (* Unreadable: the script cannot even be read (setup.py that is not UTF-8): extractor.contents raises *)
 Inductive ending := Finish | Raise | SysExit | OsExit | Unreadable.
 Definition program := (list op * ending)%type.
@@ -245,6 +246,7 @@ Definition run_op (e : env) (o : op) (s : st) : st :=
   | OModDel n => with_mods (mdel n (mods s)) s
   | OPathIns d => with_path (d :: path s) s
   | OMutate k c => mutate k c s
+  | OMetaIns front h => with_meta (if front then h :: meta s else meta s ++ [h]) s
   end.
 
 Definition run_ops (e : env) (os : list op) (s : st) : st := fold_left (fun a o => run_op e o a) os s.
@@ -380,6 +382,10 @@ Definition run_fstep (e : env) (tk : ptoks) (f : fstep) (s : st) : option st :=
   | FMetaRemove => if mem_n (e_hook e) (meta s)
                    then Some (with_meta (remove_first_n (e_hook e) (meta s)) s)
                    else None                             (* ValueError *)
+  | FMetaPop => match rev (meta s) with       (* sys.meta_path.pop(): whatever is last *)
+                | [] => None                    (* IndexError *)
+                | _ :: r => Some (with_meta (rev r) s)
+                end
   | FPurgeModules =>
       (* the loop calls extractor.contains_path -> os.path.abspath on the first module loaded
          from outside the interpreter prefix (the host always has one: it precedes every module
